@@ -1070,6 +1070,10 @@ pub fn run_batch<E: Engine>(e: &E, opts: &BatchOpts) -> i32 {
         wall,
         exit
     );
+    if aborted * 5 > runs {
+        // a check whose runs mostly end in somebody else's observation explores little: make it visible
+        println!("REACH: {} of {} runs ended early with an observation that belongs to another property (e.g. {:?})", aborted, runs, aborted_samples.first());
+    }
     if !missing_probes.is_empty() {
         println!("REACH: probes at zero: {:?}", missing_probes);
         if opts.tier == Tier::Thorough && exit == 0 && std::env::var_os("TW2SIM_REACH_STRICT").is_some() {
